@@ -131,6 +131,7 @@ type Op struct {
 	TK      int
 	Limit   s1.ChordAngle
 	Reuse   int // C13: which long-lived query object to use (-1: fresh)
+	ReuseT  int // C13: which long-lived target object to use (0: a fresh target; i>0: target i-1)
 }
 
 func (op *Op) String() string {
@@ -153,6 +154,9 @@ func (op *Op) String() string {
 	}
 	if op.Reuse >= 0 {
 		s += fmt.Sprintf(",reuse=q%d", op.Reuse)
+	}
+	if op.ReuseT > 0 {
+		s += fmt.Sprintf(",reuse-target=t%d", op.ReuseT-1)
 	}
 	return s + ")"
 }
@@ -196,12 +200,26 @@ type tcalls struct {
 	consLE func(q *s2.EdgeQuery, l s1.ChordAngle) bool
 }
 
-func targetCalls(op *Op, world []*Obj) tcalls {
+// memo: a long-lived target is one instance used by every call; otherwise a new target per call.
+func memo[T any](shared bool, f func() *T) func() *T {
+	if !shared {
+		return f
+	}
+	var inst *T
+	return func() *T {
+		if inst == nil {
+			inst = f()
+		}
+		return inst
+	}
+}
+
+func targetCalls(op *Op, world []*Obj, shared bool) tcalls {
 	far := op.EQ.Furthest
 	switch op.TK {
 	case TPoint:
 		if far {
-			mk := func() *s2.MaxDistanceToPointTarget { return s2.NewMaxDistanceToPointTarget(op.P) }
+			mk := memo(shared, func() *s2.MaxDistanceToPointTarget { return s2.NewMaxDistanceToPointTarget(op.P) })
 			return tcalls{
 				func(q *s2.EdgeQuery) []s2.EdgeQueryResult { return q.FindEdges(mk()) },
 				func(q *s2.EdgeQuery) s1.ChordAngle { return q.Distance(mk()) },
@@ -209,7 +227,7 @@ func targetCalls(op *Op, world []*Obj) tcalls {
 				func(q *s2.EdgeQuery, l s1.ChordAngle) bool { return q.IsConservativeDistanceGreaterOrEqual(mk(), l) },
 			}
 		}
-		mk := func() *s2.MinDistanceToPointTarget { return s2.NewMinDistanceToPointTarget(op.P) }
+		mk := memo(shared, func() *s2.MinDistanceToPointTarget { return s2.NewMinDistanceToPointTarget(op.P) })
 		return tcalls{
 			func(q *s2.EdgeQuery) []s2.EdgeQueryResult { return q.FindEdges(mk()) },
 			func(q *s2.EdgeQuery) s1.ChordAngle { return q.Distance(mk()) },
@@ -219,7 +237,7 @@ func targetCalls(op *Op, world []*Obj) tcalls {
 	case TEdge:
 		e := s2.Edge{V0: op.P, V1: op.Q}
 		if far {
-			mk := func() *s2.MaxDistanceToEdgeTarget { return s2.NewMaxDistanceToEdgeTarget(e) }
+			mk := memo(shared, func() *s2.MaxDistanceToEdgeTarget { return s2.NewMaxDistanceToEdgeTarget(e) })
 			return tcalls{
 				func(q *s2.EdgeQuery) []s2.EdgeQueryResult { return q.FindEdges(mk()) },
 				func(q *s2.EdgeQuery) s1.ChordAngle { return q.Distance(mk()) },
@@ -227,7 +245,7 @@ func targetCalls(op *Op, world []*Obj) tcalls {
 				func(q *s2.EdgeQuery, l s1.ChordAngle) bool { return q.IsConservativeDistanceGreaterOrEqual(mk(), l) },
 			}
 		}
-		mk := func() *s2.MinDistanceToEdgeTarget { return s2.NewMinDistanceToEdgeTarget(e) }
+		mk := memo(shared, func() *s2.MinDistanceToEdgeTarget { return s2.NewMinDistanceToEdgeTarget(e) })
 		return tcalls{
 			func(q *s2.EdgeQuery) []s2.EdgeQueryResult { return q.FindEdges(mk()) },
 			func(q *s2.EdgeQuery) s1.ChordAngle { return q.Distance(mk()) },
@@ -236,7 +254,7 @@ func targetCalls(op *Op, world []*Obj) tcalls {
 		}
 	case TCell:
 		if far {
-			mk := func() *s2.MaxDistanceToCellTarget { return s2.NewMaxDistanceToCellTarget(op.Cell) }
+			mk := memo(shared, func() *s2.MaxDistanceToCellTarget { return s2.NewMaxDistanceToCellTarget(op.Cell) })
 			return tcalls{
 				func(q *s2.EdgeQuery) []s2.EdgeQueryResult { return q.FindEdges(mk()) },
 				func(q *s2.EdgeQuery) s1.ChordAngle { return q.Distance(mk()) },
@@ -244,7 +262,7 @@ func targetCalls(op *Op, world []*Obj) tcalls {
 				func(q *s2.EdgeQuery, l s1.ChordAngle) bool { return q.IsConservativeDistanceGreaterOrEqual(mk(), l) },
 			}
 		}
-		mk := func() *s2.MinDistanceToCellTarget { return s2.NewMinDistanceToCellTarget(op.Cell) }
+		mk := memo(shared, func() *s2.MinDistanceToCellTarget { return s2.NewMinDistanceToCellTarget(op.Cell) })
 		return tcalls{
 			func(q *s2.EdgeQuery) []s2.EdgeQueryResult { return q.FindEdges(mk()) },
 			func(q *s2.EdgeQuery) s1.ChordAngle { return q.Distance(mk()) },
@@ -254,7 +272,7 @@ func targetCalls(op *Op, world []*Obj) tcalls {
 	default: // TIndex
 		tix := world[op.Obj2].index()
 		if far {
-			mk := func() *s2.MaxDistanceToShapeIndexTarget { return s2.NewMaxDistanceToShapeIndexTarget(tix) }
+			mk := memo(shared, func() *s2.MaxDistanceToShapeIndexTarget { return s2.NewMaxDistanceToShapeIndexTarget(tix) })
 			return tcalls{
 				func(q *s2.EdgeQuery) []s2.EdgeQueryResult { return q.FindEdges(mk()) },
 				func(q *s2.EdgeQuery) s1.ChordAngle { return q.Distance(mk()) },
@@ -262,7 +280,7 @@ func targetCalls(op *Op, world []*Obj) tcalls {
 				func(q *s2.EdgeQuery, l s1.ChordAngle) bool { return q.IsConservativeDistanceGreaterOrEqual(mk(), l) },
 			}
 		}
-		mk := func() *s2.MinDistanceToShapeIndexTarget { return s2.NewMinDistanceToShapeIndexTarget(tix) }
+		mk := memo(shared, func() *s2.MinDistanceToShapeIndexTarget { return s2.NewMinDistanceToShapeIndexTarget(tix) })
 		return tcalls{
 			func(q *s2.EdgeQuery) []s2.EdgeQueryResult { return q.FindEdges(mk()) },
 			func(q *s2.EdgeQuery) s1.ChordAngle { return q.Distance(mk()) },
@@ -281,8 +299,17 @@ func encResults(rs []s2.EdgeQueryResult) Ans {
 	return a
 }
 
+// targetCallsFor: the op's long-lived target when it names one, else a fresh target per call.
+func targetCallsFor(op *Op, world []*Obj, qs *Queries) tcalls {
+	if qs != nil && op.ReuseT > 0 && op.ReuseT-1 < len(qs.Tgt) {
+		return qs.Tgt[op.ReuseT-1]
+	}
+	return targetCalls(op, world, false)
+}
+
 // Queries holds long-lived query objects (C13). In C14 it is nil: every call makes its own.
 type Queries struct {
+	Tgt   []tcalls
 	EQ    []*s2.EdgeQuery
 	EQOpt []EQOpts
 	EQObj []int
@@ -381,16 +408,16 @@ func execQuery(world []*Obj, op *Op, qs *Queries) Ans {
 		return a
 	case QFindEdges:
 		q := eq(o, op, qs)
-		return encResults(targetCalls(op, world).find(q))
+		return encResults(targetCallsFor(op, world, qs).find(q))
 	case QDistance:
 		q := eq(o, op, qs)
-		return Ans{math.Float64bits(float64(targetCalls(op, world).dist(q)))}
+		return Ans{math.Float64bits(float64(targetCallsFor(op, world, qs).dist(q)))}
 	case QIsDistLess:
 		q := eq(o, op, qs)
-		return Ans{b2u(targetCalls(op, world).less(q, op.Limit))}
+		return Ans{b2u(targetCallsFor(op, world, qs).less(q, op.Limit))}
 	case QIsConsDist:
 		q := eq(o, op, qs)
-		return Ans{b2u(targetCalls(op, world).consLE(q, op.Limit))}
+		return Ans{b2u(targetCallsFor(op, world, qs).consLE(q, op.Limit))}
 	case QWalk:
 		if op.Cross == 1 && o.Kind == OIndex {
 			// backwards, from End()
